@@ -69,3 +69,16 @@ Example C05_tree_example :
   let e := MMul (MAdd (MLeaf D) (MLeaf Sy)) (MScale 2%:R (MNeg (MLeaf Lo))) in
   wf_leaves 2%N e && diag_leaves e.
 Proof. by []. Qed.
+
+(* ---- the special-case branch of the literal (branch-by-branch) model of ops.qsm_mul: two diagonal matrices are multiplied
+   element-wise without entering the scans; that branch is exact and denotes the same matrix as the uniform form above ---- *)
+From TinyGP Require Import Theory.QSMMulDiag.
+Theorem C05_matmul_diag_special_case (F : fieldType) sq lt n (x y : vec F) (C : qsm F) :
+  qsm_mul (fops sq lt) (Diag n x) (Diag n y) = Some C -> den n C = den n (Diag n x) *m den n (Diag n y).
+Proof. exact: mul_diag_diag_sound. Qed.
+Theorem C05_matmul_diag_special_case_agrees (F : fieldType) sq lt n (x y : vec F) (C C' : qsm F) :
+  qsm_mul (fops sq lt) (Diag n x) (Diag n y) = Some C -> qsm_mul_u (fops sq lt) (Diag n x) (Diag n y) = Some C' ->
+  den n C = den n C'.
+Proof. exact: mul_diag_diag_agrees. Qed.
+Print Assumptions C05_matmul_diag_special_case.
+Print Assumptions C05_matmul_diag_special_case_agrees.
